@@ -1,10 +1,10 @@
 #!/bin/sh
-# usage: tools/import_seeded.sh Cxx   — copies the deliverables of /tmp/mut/Cxx/_out into /verif/seeded/Cxx-m1, Cxx-m2
+# usage: tools/import_seeded.sh Cxx   — copies the deliverables of ${MUTDIR:-/tmp/mut}/Cxx/_out into /verif/seeded/Cxx-m1, Cxx-m2
 p=$1
 for m in m1 m2 m3; do
-  o=/tmp/mut/$p/_out
+  o=${MUTDIR:-/tmp/mut}/$p/_out
   [ -f $o/$m.diff ] || continue
-  d=/verif/seeded/$p-$m; mkdir -p $d
+  d=/verif/seeded/$p-${PFX:-}$m; mkdir -p $d
   cp $o/$m.diff $d/patch.diff
   for f in $o/${m}_demo*; do [ -f "$f" ] && cp $f $d/demo${f##*_demo}; done
   cp $o/$m.json $d/meta.json 2>/dev/null || echo '{"property":"'$p'","summary":"","needs":""}' > $d/meta.json
